@@ -448,11 +448,16 @@ func (b *Bitmap) CountRange(start, end uint64) (n uint64) {
 	ekey := highbits(end)
 
 	citer, found := b.Containers.Iterator(highbits(start))
-	// If range is entirely in one container then just count that range.
+	// If range is entirely in one container then just count that range. The
+	// key may be present with a nil container (the iterator skips those), so
+	// make sure the container that comes back is the one that was asked for.
 	if found && skey == ekey {
-		citer.Next()
-		_, c := citer.Value()
-		return uint64(c.countRange(int32(lowbits(start)), int32(lowbits(end))))
+		if citer.Next() {
+			if k, c := citer.Value(); k == skey {
+				return uint64(c.countRange(int32(lowbits(start)), int32(lowbits(end))))
+			}
+		}
+		return 0
 	}
 
 	for citer.Next() {
